@@ -1,4 +1,5 @@
 """C14 - transferable keys survive export and import with their structure intact (E1 over shapes + E2 states of the history search)."""
+import os
 import copy
 import itertools
 
@@ -89,6 +90,7 @@ class Prop(object):
                 for secret in (False, True):
                     u.append(('shapes', {'nuid': nuid, 'nsub': nsub, 'secret': secret, 'reduced': tier == 'quick'}))
         u.append(('concat', {}))
+        u.append(('files', {}))
         u.append(('foreign-component', {}))
         u.append(('gpg', {}))
         d = 2 if tier == 'quick' else 3
@@ -112,7 +114,7 @@ class Prop(object):
             subs = [dict(x, kdf=tuple(shape['kdf'])) if x['alg'] == 'ecdh' else x for x in subs]
         known = {rkeys.keyid(x): x for x in [prim, other] + subs}
         pbody = rkeys.public_body(prim)
-        t = [K.T0 + 100]
+        t = [K.T0 + 100 + shape.get('t0', 0)]
 
         def now():
             if not shape.get('same_time'):
@@ -254,6 +256,65 @@ class Prop(object):
         r.dim('nuid', case['nuid'])
         r.dim('nsub', case['nsub'])
         r.samples.append({'shape': {k: v for k, v in shape.items() if v}})
+        return r
+
+    def c_files(self, case):
+        """The same key through the file entry points (PGPKey.from_file with str / pathlib.Path, PGPKeyring.load(path)): binary files whose last octet -
+        the last octet of the last signature - is each ASCII white-space octet (creation times searched) and two others, armored files with blank
+        lines around the block.  What is loaded equals what from_blob makes of the same octets."""
+        import pathlib
+        import tempfile
+        import pgpy
+        r = Res()
+        want_last = [0x09, 0x0a, 0x0b, 0x0c, 0x0d, 0x20, 0x00, 0x41]
+        d = tempfile.mkdtemp(prefix='c14f')
+        try:
+            for nsub, secret in ((0, False), (1, True)):
+                found = {}
+                t0 = 0
+                while len(found) < len(want_last) and t0 < 6000:
+                    shape = dict(nuid=1, nsub=nsub, secret=secret, uat=False, nself=1, third=None, revoke_uid=False, extras=(), same_time=False, trust=False, prim='ed25519a', t0=t0)
+                    blob, known = self.write_key(shape)
+                    if blob[-1] in want_last and blob[-1] not in found:
+                        found[blob[-1]] = (blob, known, t0)
+                    t0 += 1
+                for last, (blob, known, t0) in sorted(found.items()):
+                    ref = pgpy.PGPKey.from_blob(blob)[0]
+                    for lname, content in (('binary', blob), ('armored with blank lines around', ('\n\n' + str(ref) + '\n\n').encode())):
+                        for how in ('from_file(str)', 'from_file(Path)', 'keyring.load(path)'):
+                            if case.get('only') is not None and case['only'] != [nsub, last, lname, how]:
+                                continue
+                            r.states += 1
+                            r.transitions += 1
+                            probs = []
+                            label = '%s key file (%d subkeys, %s) ending in octet 0x%02x, read with %s' % (lname, nsub, 'secret' if secret else 'public', content[-1], how)
+                            try:
+                                path = os.path.join(d, 'key.gpg')
+                                with open(path, 'wb') as f:
+                                    f.write(content)
+                                if how == 'keyring.load(path)':
+                                    kr = pgpy.PGPKeyring()
+                                    kr.load(path)
+                                    with kr.key(str(ref.fingerprint)) as kk:
+                                        k = kk
+                                else:
+                                    k = pgpy.PGPKey.from_file(path if how == 'from_file(str)' else pathlib.Path(path))[0]
+                                if bytes(k) != bytes(ref):
+                                    probs.append(('file-entry', 'the key read from the file exports other octets than the key read from the same octets with from_blob'))
+                                else:
+                                    v = H.key_view(bytes(k))
+                                    check_signatures(v, known, probs, label)
+                            except Exception as e:
+                                probs.append(('file-entry', 'raises %r' % (e,)))
+                            r.outcomes['ok' if not probs else 'violation'] += 1
+                            if probs:
+                                r.viol('files', {'kind': probs[0][0], 'last_octet_whitespace': content[-1] in (9, 10, 11, 12, 13, 32), 'how': how.split('(')[0]},
+                                       dict(case, only=[nsub, last, lname, how]), '%s: %s' % (label, probs[0][1]))
+        finally:
+            for f in os.listdir(d):
+                os.unlink(os.path.join(d, f))
+            os.rmdir(d)
+        r.samples.append({'last_octets': want_last})
         return r
 
     def c_gpg(self, case):
